@@ -126,6 +126,9 @@ class P2PNet(Engine):
             if rng.random() < 0.05:
                 steps.append({'t': t, 'prio': rng.randint(0, 3), 'party': conns[cid]['src'], 'op': 'chunks',
                               'args': {'conn': cid, 'sizes': self._gen_sizes(rng), 'gaps': self._gen_gaps(rng)}})
+            if rng.random() < 0.06:
+                steps.append({'t': t, 'prio': rng.randint(0, 3), 'party': conns[cid]['src'], 'op': 'badsend',
+                              'args': {'conn': cid, 'how': rng.choice(['ping-nonce', 'version-height', 'inv-type', 'addr-port', 'reject-code', 'tx-value', 'headers-time'])}})
             if rng.random() < 0.03:
                 steps.append({'t': t, 'prio': rng.randint(0, 3), 'party': conns[cid]['src'], 'op': 'close',
                               'args': {'conn': cid, 'how': rng.choice(['eof', 'eof', 'rst'])}})
@@ -252,6 +255,46 @@ class P2PNet(Engine):
             c = self.conns[a['conn'] % len(self.conns)]
             self._enter(c.src)
             self._send(c, a['msg'], a.get('via', 'to_bytes'), a.get('faults') or [], i)
+        elif op == 'badsend':
+            # the sending application hands the library a message it cannot frame (a field outside its
+            # wire range): the call raises part-way through; nothing of it may reach later frames
+            c = self.conns[a['conn'] % len(self.conns)]
+            self._enter(c.src)
+            M = self.M
+            import bitcoin.net as N
+            import bitcoin.core as C
+            how = a['how']
+            try:
+                if how == 'ping-nonce':
+                    m = M.msg_ping(nonce=2 ** 64)
+                elif how == 'version-height':
+                    m = M.msg_version()
+                    m.nStartingHeight = None
+                elif how == 'inv-type':
+                    m = M.msg_inv()
+                    good, bad = N.CInv(), N.CInv()
+                    good.type, good.hash = 1, b'\x01' * 32
+                    bad.type, bad.hash = 2 ** 31, b'\x02' * 32
+                    m.inv = [good, bad]
+                elif how == 'addr-port':
+                    m = M.msg_addr()
+                    a1, a2 = N.CAddress(), N.CAddress()
+                    a2.port = 70000
+                    m.addrs = [a1, a2]
+                elif how == 'reject-code':
+                    m = M.msg_reject()
+                    m.ccode = b'ab'
+                elif how == 'tx-value':
+                    m = M.msg_tx()
+                    m.tx = C.CTransaction([C.CTxIn(C.COutPoint(b'\x05' * 32, 0))], [C.CTxOut(2 ** 63)])
+                else:
+                    m = M.msg_headers()
+                    m.headers = [C.CBlockHeader(), C.CBlockHeader(nTime=2 ** 32)]
+                m.to_bytes()
+                ctx.probe('badsend-did-not-raise')
+            except Exception:
+                ctx.fault('failed-framing-attempt')
+            ctx.log(self.q.now, c.src, 'badsend', how)
         elif op == 'stall':
             c = self.conns[a['conn'] % len(self.conns)]
             c.pipe.stalled_until = max(c.pipe.stalled_until, self.q.now + a['seconds'])
